@@ -87,6 +87,12 @@ func (g *sgen) baseWorld() J {
 		"now":              1.6e9 + float64(g.r.intn(100000000)),
 		"newIds":           []interface{}{local("/activities/n1"), local("/objects/n2"), local("/objects/n3"), local("/objects/n4"), local("/activities/n5"), local("/objects/n6")},
 	}
+	// now and then the owned collections are stored as pages (which extend the collection types)
+	if int64(w["now"].(float64))%5 == 0 {
+		st := jmap(w["store"])
+		jmap(st[local("/col/2")])["type"] = "CollectionPage"
+		jmap(st[local("/ocol/1")])["type"] = "OrderedCollectionPage"
+	}
 	return w
 }
 
